@@ -38,7 +38,8 @@ type scriptedServer struct {
 	sent         []sentMsg
 	cur          *scriptedStream
 	sendDelay    time.Duration
-	failSendIn   int // fail the n-th Send from now (0 = never)
+	failSendIn   int      // fail the n-th Send from now (0 = never)
+	sendStarted  chan int // epoch of every Send that begins (when non-nil)
 }
 
 type scriptedStream struct {
@@ -57,7 +58,14 @@ func (st *scriptedStream) Send(sub, unsub []string) error {
 	srv := st.srv
 	srv.mu.Lock()
 	d := srv.sendDelay
+	started := srv.sendStarted
 	srv.mu.Unlock()
+	if started != nil {
+		select {
+		case started <- st.epoch:
+		default:
+		}
+	}
 	if d > 0 {
 		time.Sleep(d)
 	}
@@ -166,7 +174,7 @@ func c16History(seed int64, idx int) c16Result {
 	defer cancel()
 	res := c16Result{kind: "ok", reach: map[string]int{}}
 	nnames := 1 + rnd.Intn(40)
-	shape := []string{"many-while-down", "bursts-while-up", "mixed-with-failures", "slow-server"}[rnd.Intn(4)]
+	shape := []string{"many-while-down", "bursts-while-up", "mixed-with-failures", "slow-server", "change-during-resubscribe"}[rnd.Intn(5)]
 	res.class = fmt.Sprintf("%s/n%d", shape, nnames/10)
 	want := map[string]bool{}
 	var trace []string
@@ -276,6 +284,49 @@ func c16History(seed int64, idx int) c16Result {
 				time.Sleep(time.Duration(rnd.Intn(3)) * time.Millisecond)
 			}
 		}
+	case "change-during-resubscribe":
+		// some services are subscribed, the stream fails, and dependency changes land exactly while the resubscribe
+		// message of the next stream is in flight
+		time.Sleep(20 * time.Millisecond)
+		for i := 0; i < 2+rnd.Intn(5); i++ {
+			if !call(true, name()) {
+				return res
+			}
+		}
+		time.Sleep(30 * time.Millisecond)
+		srv.mu.Lock()
+		srv.sendStarted = make(chan int, 64)
+		started := srv.sendStarted
+		srv.sendDelay = time.Duration(40+rnd.Intn(40)) * time.Millisecond
+		oldEpoch := srv.epoch
+		if srv.cur != nil {
+			srv.cur.kill()
+		}
+		srv.mu.Unlock()
+		deadline := time.After(5 * time.Second)
+	waitResub:
+		for {
+			select {
+			case ep := <-started:
+				if ep > oldEpoch {
+					break waitResub
+				}
+			case <-deadline:
+				res.kind = "inconclusive"
+				return res
+			}
+		}
+		for i := 0; i < 1+rnd.Intn(4); i++ {
+			nm := name()
+			if !call(!want[nm], nm) {
+				return res
+			}
+		}
+		srv.mu.Lock()
+		srv.sendDelay = 0
+		srv.sendStarted = nil
+		srv.mu.Unlock()
+		res.reach["histories_with_change_during_resubscribe"]++
 	case "slow-server":
 		// the server is slow to take a message, so later calls pile up and are batched
 		time.Sleep(20 * time.Millisecond)
@@ -422,4 +473,5 @@ func c16(r *ev.Run) {
 	runAPIPart(r, "client-race", true, []string{"config/discovery.go"}, 20*time.Minute)
 	r.Require("histories_with_more_than_16_changes_while_down", 5)
 	r.Require("histories_with_slow_server", 5)
+	r.Require("histories_with_change_during_resubscribe", 5)
 }
